@@ -171,3 +171,5 @@ for _pid, _site in {'C01': 'net3d-agree', 'C02': 'net3d-agree', 'C06': 'net3d-co
     PROPS[_pid]['e1'].append(dict(NET3D)); PROPS[_pid]['must_reach'].append(_site)
     PROPS[_pid]['bounds'] = PROPS[_pid]['bounds'] + NET3D_BOUNDS
     PROPS[_pid]['outside'] = PROPS[_pid]['outside'] + NET3D_OUT
+PROPS['C14']['e1'].append(dict(NET2D)); PROPS['C14']['must_reach'].append('net2d-outlier')
+PROPS['C14']['bounds'] = PROPS['C14']['bounds'] + '; plane networks (net2d/outlier): one observation (direction, distance or angle; every 5th quick, every 2nd thorough) with an extra symbolic gross error of +-3 m / +-0.01 rad around tol-abs = 1000: both outcomes explored, results against the oracle with / without the observation'
